@@ -5,8 +5,10 @@ Meaning of the Python operations that occur in the functions translated by
 `harness/translate/pyfun.py --selftest` runs each definition against the interpreter on a grid).
 
 Conventions of the generated code
-* a Python `int` is an `Int`; a `bool` is a `Bool`; `bytes` *read* by slices is a `Buf`; a `bytearray`
-  that is *built* (`insert`, `+`) and a `bytes` constant is a `List Nat`; a `str` is a `List Char`;
+* a Python `int` is an `Int`; a `bool` is a `Bool`; a `bytes` parameter that is only *read* is a `Buf`; a slice of
+  it, a `bytearray` that is *built* (`insert`, `+`) and a `bytes` constant are `List Nat`; a `str` is a `List Char`;
+  a `struct.unpack(">d")` double is its 64-bit pattern (`Nat`); md5 is the identity; a value whose Python type
+  depends on the path (`None` / int / float / bytes) is a `PyVal`;
 * a Python `float` only arises from `int / int` followed by `+ int`/`- int`; it is carried as the exact
   fraction `PyRat` (IEEE rounding is NOT modelled: the identification is exact whenever the operands
   are below 2^53 in absolute value, DESIGN.md §4.1 — the one arithmetic fact trusted here);
@@ -105,6 +107,46 @@ def pyOrdSlice (b : Buf) (lo hi : Int) : Py Int :=
 
 /-- `len(b)` -/
 def pyLenBuf (b : Buf) : Int := b.size
+
+/-- Python `b[lo:hi]` as a new byte string (possibly short or empty; never raises) -/
+def pySliceBuf (b : Buf) (lo hi : Int) : List Nat :=
+  let l := pySliceIdx b.size lo
+  let h := pySliceIdx b.size hi
+  (List.range (h - l)).map fun i => b.rd (l + i)
+
+/-! ### struct.unpack of one big-endian field, md5, the all-zeros check -/
+
+/-- big-endian value of a byte string -/
+def pyBE (l : List Nat) : Nat := l.foldl (fun acc x => acc * 256 + x) 0
+
+/-- `struct.unpack(">b" | ">B" | ">h" | ">H" | ">i" | ">I" | ">q" | ">Q", data)[0]`: `n` bytes, two's complement
+when `signed`; `struct.error` unless `data` has exactly `n` bytes -/
+def pyUnpackBE (signed : Bool) (n : Nat) (data : List Nat) : Py Int :=
+  if data.length = n then
+    let u := pyBE data
+    if signed ∧ u ≥ 2 ^ (8 * n - 1) then .ok ((u : Int) - ((2 ^ (8 * n) : Nat) : Int)) else .ok (u : Nat)
+  else .error .structError
+
+/-- `struct.unpack(">d", data)[0]`: the IEEE double is carried as its 64-bit pattern (the conversion is trusted) -/
+def pyUnpackDouble (data : List Nat) : Py Nat :=
+  if data.length = 8 then .ok (pyBE data) else .error .structError
+
+/-- `get_md5_hash(data)`: modelled as the identity on the bytes (md5 is not modelled; what matters to the
+callers is that equal inputs give equal digests) -/
+def pyMd5 (data : List Nat) : List Nat := data
+
+/-- `re.compile("^0{n}$").match(hexlify(data).decode())` as a truth value: the hex string has exactly `n`
+characters and all of them are `0`.  (The hex string is carried as the bytes it spells.) -/
+def pyZerosHexMatch (n : Nat) (data : List Nat) : Bool :=
+  data.length * 2 == n && data.all (· == 0)
+
+/-- a Python value whose type depends on the path taken (`get_record_content`'s second result) -/
+inductive PyVal where
+  | none
+  | int (i : Int)
+  | float64 (bits : Nat)
+  | bytes (l : List Nat)
+  deriving Repr, DecidableEq, Inhabited
 
 /-! ### bytearrays that are built -/
 
